@@ -820,10 +820,17 @@ def scale_model(kind, seed, ndims=3, names=None, nfields=3, payload="random", **
     if kind == "bigbox":
         m = gen_model(seed, ndims=3, nlevels=1, names=names, base=[128, 96, 100], sizes=[[122, 6], [96], [100]],
                       payload=payload, nfiles=1, **kw)
+        # the thin box is listed and stored first: the big FAB then starts behind it (not at byte 0), and the file is
+        # in header order (what AMReX itself writes)
+        if m.boxes[0][0].shape[0] > m.boxes[0][1].shape[0]:
+            m.boxes[0].reverse(); m.data[0].reverse()
+        m.layout[0] = {"file_of": [m.layout[0]["file_of"][0]] * 2, "write_order": [0, 1]}
         big = max(m.boxes[0], key=lambda b: b.shape[0])
         x0 = 2 * big.lo[0]
         fine = [Box((x0 + 4, 8, 8), (x0 + 19, 23, 23)), Box((x0 + 200, 160, 150), (x0 + 215, 175, 173))]
-        return add_fine_boxes(m, fine, seed)
+        m = add_fine_boxes(m, fine, seed)
+        m.layout[1] = {"file_of": [m.layout[1]["file_of"][0]] * 2, "write_order": [0, 1]}
+        return m
     if kind == "bigbox2d":
         m = gen_model(seed, ndims=2, nlevels=1, names=names, base=[272, 256], sizes=[[256, 16], [256]],
                       payload=payload, nfiles=1, **kw)
